@@ -1,6 +1,7 @@
 package main
 
 import (
+	"go/token"
 	"fmt"
 	"go/types"
 	"sort"
@@ -539,6 +540,8 @@ func (fr *Frame) siteOrdinal(site ssa.Instruction, key string) int {
 					k = invokeKey(c)
 				} else if callee := c.StaticCallee(); callee != nil {
 					k = funcKey(callee)
+				} else if fk := fieldFuncKey(c); fk != "" {
+					k = fk // call through a function-typed struct field
 				} else {
 					continue
 				}
@@ -661,6 +664,12 @@ func (fr *Frame) applyModifies(ev *Eval, ct *Contract, st *State, pre *State) {
 					}
 					goto next
 				}
+			case "prefix":
+				// prefix("H_ltx_"): every tracked state component whose raw key starts with the prefix
+				if lit, ok := n.Args[0].(*EStr); ok {
+					fr.havocPrefix(lit.V, st)
+					goto next
+				}
 			case "deref":
 				// deref(p): the cell or location p points to
 				save := ev.st
@@ -769,6 +778,10 @@ func (fr *Frame) havocForUnknown(key string, fn *ssa.Function, c *ssa.CallCommon
 		}
 		sort.Strings(ks)
 		for _, k := range ks {
+			if strings.HasPrefix(k, "$prefix:") {
+				fr.havocPrefix(strings.TrimPrefix(k, "$prefix:"), st)
+				continue
+			}
 			srt, ok := vc.eng.globSorts[k]
 			if v, has := st.glob[k]; has {
 				srt, ok = v.Sort, true
@@ -858,10 +871,35 @@ func (fr *Frame) havocClosureArgs(args []Val, st *State) {
 	}
 }
 
+// havocPrefix havocs every heap key with the given prefix that this VC can observe.
+func (fr *Frame) havocPrefix(prefix string, st *State) {
+	vc := fr.x.vc
+	seen := map[string]Sort{}
+	for k, s := range vc.eng.globSorts {
+		if strings.HasPrefix(k, prefix) {
+			seen[k] = s
+		}
+	}
+	for k, v := range st.glob {
+		if strings.HasPrefix(k, prefix) {
+			seen[k] = v.Sort
+		}
+	}
+	for _, k := range sortedKeys(seen) {
+		if _, isGhost := vc.eng.cs.Ghosts[k]; isGhost {
+			continue
+		}
+		st.setGlob(k, vc.fresh(k, seen[k]))
+	}
+}
+
 func (fr *Frame) havocClosure(cv *ClosV, st *State) {
 	vc := fr.x.vc
-	for _, b := range cv.Binds {
+	for bi, b := range cv.Binds {
 		if p, ok := b.(*PtrV); ok && p.Kind == PCell {
+			if bi < len(cv.Fn.FreeVars) && freeVarOnlyRead(cv.Fn.FreeVars[bi]) {
+				continue // the closure only reads this captured variable
+			}
 			if old, ok := st.cells[p.Cell]; ok {
 				if _, isClos := old.(*ClosV); isClos {
 					continue
@@ -876,10 +914,45 @@ func (fr *Frame) havocClosure(cv *ClosV, st *State) {
 		return
 	}
 	for _, k := range sortedKeys(ms.keys) {
+		srt, ok := vc.eng.globSorts[k]
 		if v, has := st.glob[k]; has {
-			st.setGlob(k, vc.fresh(k, v.Sort))
+			srt, ok = v.Sort, true
+		}
+		if !ok {
+			continue // never read in this VC
+		}
+		if _, isGhost := vc.eng.cs.Ghosts[k]; isGhost {
+			continue
+		}
+		st.setGlob(k, vc.fresh(k, srt))
+	}
+	if ms.alloc {
+		old := vc.getGlob(st, "$alloc", SInt)
+		nv := vc.fresh("alloc", SInt)
+		vc.assert(Le(old, nv))
+		st.setGlob("$alloc", nv)
+	}
+}
+
+// freeVarOnlyRead reports whether a captured variable is only loaded in the closure body
+// (never stored to, never handed on by address).
+func freeVarOnlyRead(fv *ssa.FreeVar) bool {
+	refs := fv.Referrers()
+	if refs == nil {
+		return false
+	}
+	for _, r := range *refs {
+		switch u := r.(type) {
+		case *ssa.DebugRef:
+		case *ssa.UnOp:
+			if u.Op != token.MUL {
+				return false
+			}
+		default:
+			return false
 		}
 	}
+	return true
 }
 
 func (fr *Frame) havocClosureCaptures(c *ssa.CallCommon, st *State) {
